@@ -200,6 +200,39 @@ def xcanon(fn, e, depth=3, keep=()):
     return canon(strip_all_casts(expand(fn, e, depth, keep)))
 
 
+PASS_THROUGH_CALLS = {"std::move", "std::forward", "std::to_string", "std::basic_string_view::basic_string_view"}
+
+
+def flows_unchanged(fn, e, source_callee):
+    """True when expression e is the result of `source_callee` passed on unchanged: only casts,
+    copies, std::move / std::to_string and single-definition locals lie between them
+    (no arithmetic, no other call)."""
+    x = strip_all_casts(expand(fn, e))
+    guard = 0
+    while isinstance(x, dict) and guard < 12:
+        guard += 1
+        k = x.get("k")
+        if k == "call":
+            nm = callee_name(x)
+            if nm == source_callee:
+                return True
+            if nm in PASS_THROUGH_CALLS and len(x.get("args", [])) == 1:
+                x = strip_all_casts(x["args"][0])
+                continue
+            if (x.get("callee") or {}).get("nm") in ("operator basic_string_view", "operator->", "operator*", "get") and "obj" in x:
+                x = strip_all_casts(x["obj"])
+                continue
+            return False
+        if k == "construct" and len(x.get("args", [])) == 1:
+            x = strip_all_casts(x["args"][0])
+            continue
+        if k == "stdinitlist":
+            x = strip_all_casts(x.get("e"))
+            continue
+        return False
+    return False
+
+
 COPY_CALLS = {"memcpy", "memmove", "std::memcpy", "std::memmove", "std::copy_n", "std::copy"}
 
 
